@@ -279,6 +279,7 @@ type LoopAnn struct {
 	Havoc      bool
 	Invariants []Clause
 	Steps      []Clause // relation between one iteration's entry (prev(x)) and its back edge (x)
+	Entries    []Clause // must hold when the loop is first reached (proved, never assumed)
 }
 
 type SpecFunc struct {
@@ -670,6 +671,13 @@ func ParseContractFile(path, pkgPath string) (*ContractFile, error) {
 					return nil, err
 				}
 				la.Invariants = append(la.Invariants, c)
+			case "entry":
+				idx := strings.Index(rc.text, "entry")
+				c, err := mkClause(rc.text[idx+len("entry"):], rc.line)
+				if err != nil {
+					return nil, err
+				}
+				la.Entries = append(la.Entries, c)
 			case "step":
 				idx := strings.Index(rc.text, "step")
 				c, err := mkClause(rc.text[idx+len("step"):], rc.line)
